@@ -122,7 +122,7 @@ class buffer_static:
                 "Buffer-defines-no-demand-property": not isinstance(mem, PropertyInfo)}
 
 
-@contract("lemma:bounded-change", props=["C09"], kind="static")
+@contract("static:lemma-bounded-change", props=["C09"], kind="static")
 class paced:
     """corollary (arithmetic, proved by the solver in the lemma run as `paced`): steps are one per interval I, so within any
     span s there are at most s/I + 1 of them; with |change per step| <= rate*I (C08) demand changes by at most rate*(s+I)"""
